@@ -196,6 +196,19 @@ pub fn gen_case(seed: u64, k: u64) -> Case {
         };
         project.files.insert(name.to_string(), text.into_bytes());
     }
+    // rarely (it is expensive): a long, non-circular chain of files each importing the next one
+    if rng.chance(1, 100) {
+        let n = *rng.pick(&[60usize, 100, 800]);
+        for i in 1..=n {
+            let text = if i < n { format!("dl{}: nop\n.import * from \"c{}.asm\"\n", i, i + 1) } else { "dl_last: nop\n".to_string() };
+            project.files.insert(format!("deep/c{}.asm", i), text.into_bytes());
+        }
+        // nothing else in such a project: every pass over a long chain is slow, a fragment that needs hundreds
+        // of passes would make the case take minutes
+        project.files.retain(|k, _| k.starts_with("deep/"));
+        project.files.insert("main.asm".into(), b"start: nop\n.import * from \"deep/c1.asm\"\n".to_vec());
+        shape = format!("chain{};", n);
+    }
     if uses_file || rng.chance(1, 10) {
         if rng.chance(3, 4) {
             project.files.insert("data.bin".into(), vec![1, 2, 3, 0xff, 0xfe]);
@@ -423,14 +436,37 @@ fn check_error(e: &anyhow::Error, paths: &BTreeSet<PathBuf>, stats: &mut RunStat
         e2
     }));
     match r {
-        Err(_) => Some(panic_found(pipeline, "diagnostic_emitter")),
-        Ok(0) => Some(Found {
-            class: "error_without_diagnostic".into(),
-            sig: format!("empty_rendering:{}", pipeline),
-            message: format!("pipeline {} failed and the rendered diagnostics are empty", pipeline),
-        }),
-        Ok(_) => None,
+        Err(_) => return Some(panic_found(pipeline, "diagnostic_emitter")),
+        Ok(0) => {
+            return Some(Found {
+                class: "error_without_diagnostic".into(),
+                sig: format!("empty_rendering:{}", pipeline),
+                message: format!("pipeline {} failed and the rendered diagnostics are empty", pipeline),
+            })
+        }
+        Ok(_) => {}
     }
+    // fault: the stream the diagnostics go to fails part-way (`mos build | head -1`, a full disk behind a
+    // redirection): the command may lose output, it must not crash
+    if let Some(d) = e.downcast_ref::<Diagnostics>() {
+        let (good, os_error) = STDOUT_FAULT.with(|f| f.get());
+        if os_error != 0 {
+            *stats.faults_fired.entry(if os_error == 32 { "stdout_epipe".to_string() } else { "stdout_enospc".to_string() }).or_insert(0) += 1;
+            let r = std::panic::catch_unwind(std::panic::AssertUnwindSafe(|| {
+                let mut em = DiagnosticEmitter::failing_after(DisplayStyle::Rich, good, os_error);
+                em.emit_diagnostics(d);
+            }));
+            if r.is_err() {
+                return Some(panic_found(pipeline, "diagnostic_emitter(failing output stream)"));
+            }
+        }
+    }
+    None
+}
+
+thread_local! {
+    /// (bytes accepted before the failure, errno; 0 = no fault) for the run in progress
+    static STDOUT_FAULT: std::cell::Cell<(usize, i32)> = const { std::cell::Cell::new((0, 0)) };
 }
 
 pub fn execute(c: &Case, stats: &mut RunStats) -> Option<Found> {
@@ -444,6 +480,9 @@ pub fn execute(c: &Case, stats: &mut RunStats) -> Option<Found> {
     let paths: BTreeSet<PathBuf> = d.files.keys().cloned().collect();
     disk::install(d);
     passwatch::install();
+    // one run in four also renders its diagnostics to a stream that fails after 0..400 bytes
+    let sf = rng::derive(c.entropy_seed, "envsim.stdout_fault", 0);
+    STDOUT_FAULT.with(|f| f.set(if sf % 4 == 0 { (((sf >> 8) % 400) as usize, if (sf >> 4) % 2 == 0 { 32 } else { 28 }) } else { (0, 0) }));
     let found = execute_inner(c, &paths, stats);
     let ps = passwatch::uninstall();
     stats.max_passes = ps.max_passes as u64;
@@ -695,8 +734,11 @@ fn execute_inner(c: &Case, paths: &BTreeSet<PathBuf>, stats: &mut RunStats) -> O
 
 fn run_case(c: &Case) -> (Option<Found>, RunStats) {
     let c2 = c.clone();
-    // 8 MiB: the main-thread stack of the real process
-    let r = fresh_thread(8 << 20, move || {
+    // 8 MiB: the main-thread stack of the real process on Linux. The long-chain shape runs with 1 MiB, the
+    // main-thread stack of the Windows binaries the project ships: recursion that is proportional to the
+    // length of an import chain overflows it ten times sooner, which keeps these (expensive) cases small.
+    let stack = if c.shape.contains("chain") { 1 << 20 } else { 8 << 20 };
+    let r = fresh_thread(stack, move || {
         let mut st = RunStats::default();
         let f = execute(&c2, &mut st);
         (f, st)
@@ -763,9 +805,11 @@ fn minimise(cli: &Cli, c: &Case, found: &Found) -> (Case, Found) {
             best = x;
         }
     }
-    // files
+    // files (a project of hundreds of files - the long-chain shape - is reported as it is: one isolated
+    // run per file and per line would take an hour)
+    let many_files = best.project.files.len() > 32;
     for n in best.project.files.keys().cloned().collect::<Vec<_>>() {
-        if n == "main.asm" {
+        if n == "main.asm" || many_files {
             continue;
         }
         let mut x = best.clone();
@@ -776,6 +820,9 @@ fn minimise(cli: &Cli, c: &Case, found: &Found) -> (Case, Found) {
     }
     // lines
     for n in best.project.files.keys().cloned().collect::<Vec<_>>() {
+        if many_files {
+            break;
+        }
         let text = match String::from_utf8(best.project.files[&n].clone()) {
             Ok(t) => t,
             Err(_) => continue,
@@ -955,6 +1002,12 @@ pub fn main(cli: &Cli) -> i32 {
     match cli.mode.as_deref() {
         Some("worker") => return worker(cli),
         Some("one") => return one(cli),
+        Some("gen") => {
+            // print the case with index --from (a replay file)
+            let k: u64 = cli.opts.get("from").and_then(|s| s.parse().ok()).unwrap_or(0);
+            println!("{}", serde_json::to_string_pretty(&gen_case(cli.seed, k).to_json()).unwrap());
+            return EXIT_OK;
+        }
         _ => {}
     }
     if let Some(p) = &cli.replay {
